@@ -223,6 +223,74 @@ Section ProjModel.
     : pres (list (list F) * projecting_function) :=
     POk (embedding, PFNone).
 
+  (* ---------------- wave 4: the returned implementation as an OBJECT shared by all copies ---------------- *)
+  (* ProjectingFunction / TapkeeOutput copies share ONE MatrixProjectionImplementation through a shared_ptr.  An
+     application may apply its copies from several threads at once; a call is then a sequence of atomic steps on
+     (the object's members, the call's own locals), and calls interleave (model: `run` below).
+     Shipped code: project() reads proj_mat / mean_vec and writes nothing: one step, the members are left as they
+     are (what the generated table gen/Proj.v `mpi_purity` records: no non-local write, no static, no mutable).
+     The "preallocated member buffer" rewrite (NOT the shipped code) has a third member centered_vec and two
+     steps: centered_vec = vec - mean_vec;  return proj_mat.transpose() * centered_vec. *)
+  Record mpi_object : Type := { ob_P : list (list F); ob_m : list F; ob_buf : list F }.
+
+  (* the local state of a call: its argument and, at the end, its result *)
+  Record call_local : Type := { cl_arg : list F; cl_result : option (list F) }.
+
+  Definition shipped_call (D d : nat) : list (mpi_object -> call_local -> mpi_object * call_local) :=
+    [fun o l => (o, {| cl_arg := cl_arg l;
+                       cl_result := Some (ptrans_mul D d (ob_P o) (zip_sub (cl_arg l) (ob_m o))) |})].
+
+  Definition buffered_call (D d : nat) : list (mpi_object -> call_local -> mpi_object * call_local) :=
+    [fun o l => ({| ob_P := ob_P o; ob_m := ob_m o; ob_buf := zip_sub (cl_arg l) (ob_m o) |}, l);
+     fun o l => (o, {| cl_arg := cl_arg l; cl_result := Some (ptrans_mul D d (ob_P o) (ob_buf o)) |})].
+
 End ProjModel.
 
+(* ---------------- interleaved execution of calls on a shared object (any state types) ---------------- *)
+Section Interleave.
+  Variables (S L : Type).
+
+  Record thread : Type := { t_prog : list (S -> L -> S * L); t_loc : L }.
+
+  Definition step_thread (s : S) (t : thread) : S * thread :=
+    match t_prog t with
+    | [] => (s, t)
+    | f :: r => (fst (f s (t_loc t)), {| t_prog := r; t_loc := snd (f s (t_loc t)) |})
+    end.
+
+  Fixpoint set_nth {A : Type} (l : list A) (i : nat) (a : A) : list A :=
+    match l, i with
+    | [], _ => []
+    | _ :: r, 0 => a :: r
+    | x :: r, Datatypes.S j => x :: set_nth r j a
+    end.
+
+  (* the schedule names, step by step, the thread that moves next (a name outside the team is skipped) *)
+  Fixpoint run (sched : list nat) (s : S) (ts : list thread) : S * list thread :=
+    match sched with
+    | [] => (s, ts)
+    | i :: r =>
+        match nth_error ts i with
+        | None => run r s ts
+        | Some t => run r (fst (step_thread s t)) (set_nth ts i (snd (step_thread s t)))
+        end
+    end.
+
+  (* the same thread running alone for n steps *)
+  Fixpoint run_alone (n : nat) (s : S) (t : thread) : S * thread :=
+    match n with
+    | 0 => (s, t)
+    | Datatypes.S k => run_alone k (fst (step_thread s t)) (snd (step_thread s t))
+    end.
+End Interleave.
+
+Arguments t_prog {S L} _.
+Arguments t_loc {S L} _.
+Arguments Build_thread {S L} _ _.
+Arguments step_thread {S L} _ _.
+Arguments run {S L} _ _ _.
+Arguments run_alone {S L} _ _ _.
+
 Arguments projecting_function F : clear implicits.
+Arguments mpi_object F : clear implicits.
+Arguments call_local F : clear implicits.
